@@ -54,7 +54,10 @@ RULE = ('table-validation pass first: every entry of the pandas / NumPy behaviou
         '(export / linker), or at least 2 symbols of different shape (symbols), or an exception path; distinct by hash of the case.')
 TRUSTED = ['extraction of Data/Table.v to OCaml (ExtrOcamlBasic + ExtrOcamlString only) and the driver in harness/props/C19.py',
            'pandas 3.0.5 / NumPy behaviour tables pd_infer, pd_of_series, np_cast of Data/Table.v (modelled functions, validated by K only)']
-ASSUMPTIONS = ['strings are Latin-1; variable names are Python identifiers',
+ASSUMPTIONS = ['strings are Latin-1; variable names are Python identifiers (a frame with non-str column labels makes from_dataframe raise TypeError: keywords must be strings — outside the model)',
+               '"reproduces the span" is read as: the same labels in the same order (list(new.span) == list(old.span)); the kind of the span object is kept only for DatetimeIndex / MultiIndex / PeriodIndex / TimedeltaIndex, a range / tuple / ndarray / Index span comes back as a list (theorem C19_span_kind_changes); K compares the kind, the oracle does not',
+               'K is stricter than the oracle (a change there is reported as no-failing-input-found, not as a counterexample): exact position of the status / iterations columns, order of the dict returned by to_dataframes, the pandas dtype given to text columns, the dtypes and NaN-vs-None cells of the intermediate symbols table, the kind of the rebuilt span object, tables and models being copies of each other (no shared memory)',
+               'symbols round trip through CSV-like text is out of scope (pandas.read_csv inference, not fsic code)',
                'pandas coercions (DataFrame construction, Index inference, .values, astype) are modelled functions tabulated from this image; '
                'combinations the table does not cover are TUnmodelled in the model and skipped by K',
                'float() / int() of text is modelled only for text that certainly is not a number (first character a letter other than n, i)']
@@ -62,7 +65,7 @@ EXHAUSTIVE = {'quick': False, 'thorough': False}
 CASE_TIMEOUT = 30
 
 DT = ('float', 'int', 'bool', 'str', 'object')
-FREQ = {'Y': 1, 'Q': 2, 'M': 3}
+FREQ = {'Y': 1, 'Q': 2, 'M': 3, 'D': 4}
 FREQ_INV = {v: k for k, v in FREQ.items()}
 
 
@@ -207,7 +210,8 @@ def build_span(spec):
     if t == 'perindex':
         return pd.PeriodIndex([dec(x) for x in spec['labels']], freq=spec['freq'])
     if t == 'dtindex':
-        return pd.DatetimeIndex([dec(x) for x in spec['labels']])
+        ix = pd.DatetimeIndex([dec(x) for x in spec['labels']])
+        return ix.tz_localize(spec['tz']) if spec.get('tz') else ix
     if t == 'objindex':
         return pd.Index([dec(x) for x in spec['labels']], dtype=object)
     raise AssertionError(spec)
@@ -339,7 +343,10 @@ def _build_model(case):
         bases = (PandasIndexFeaturesMixin, fsic.BaseModel)
     M = type('M', bases, attrs)
     vals = {k: [dec(c) for c in v] for k, v in case['vals'].items()}
-    m = M(span, dtype=PYT[case['dtype']], **vals)
+    late = {k: v for k, v in vals.items() if k in ('span', 'self', 'dtype', 'default_value', 'strict', 'engine')}
+    m = M(span, dtype=PYT[case['dtype']], **{k: v for k, v in vals.items() if k not in late})
+    for k, v in late.items():                       # names the constructor would take for its own parameters
+        m[k] = v
     for name, dt, cells in case.get('extra', []):
         m.add_variable(name, [dec(c) for c in cells], dtype=PYT[dt])
     for nm in case.get('tamper', []):
@@ -379,6 +386,8 @@ def impl(case):
             df = m.to_dataframe(status=st, iterations=it, include_internal=ii)
             return obs_table(df)
         obs['table'] = _attempt(export)
+        direct = _attempt(lambda: obs_table(fsic.tools.model_to_dataframe(m, status=st, iterations=it, include_internal=ii)))
+        obs['table_direct'] = 'same' if direct == obs['table'] else direct
         if df is not None:
             cl = case.get('cls') or {'names': list(M.NAMES), 'dtype': None, 'default': None, 'strict': False}
             M2 = M if cl['names'] == list(M.NAMES) else type('M2', (fsic.BaseModel,), {'NAMES': list(cl['names'])})
@@ -392,7 +401,14 @@ def impl(case):
             if cl.get('engine'):
                 kw['engine'] = cl['engine']                      # passed through to __init__ unchanged
             extra = ['python'] * int(cl.get('nargs') or 0)         # extra positional arguments
-            obs['rt'] = _attempt(lambda: obs_model(M2.from_dataframe(df, *extra, **kw)))
+            m2 = None
+
+            def rebuild():
+                nonlocal m2
+                m2 = M2.from_dataframe(df, *extra, **kw)
+                return obs_model(m2)
+            obs['rt'] = _attempt(rebuild)
+            obs['views'] = _attempt(lambda: view_probe(m, df, m2))
         return obs
     if k == 'history':
         M, m = _build_model(case)
@@ -454,7 +470,11 @@ def impl(case):
         def run():
             l = L(subs, name=dec(case['name'])) if case['name'] != ['s', '_'] or case.get('explicit_name') else L(subs)
             d = l.to_dataframes(status=st, iterations=it, include_internal=ii)
-            return {'pre': {'linker': obs_model(l), 'subs': [[enc(kk), obs_model(v)] for kk, v in l.submodels.items()]},
+            d2 = fsic.tools.linker_to_dataframes(l, status=st, iterations=it, include_internal=ii)
+            same = [enc(a) for a in d] == [enc(a) for a in d2] and all(obs_table(d[a]) == obs_table(d2[a]) for a in d)
+            return {'direct': [] if same else [{'sig': 'C19|linker_to_dataframes|direct-call|differs-from-method',
+                                                 'what': 'fsic.tools.linker_to_dataframes(linker) differs from linker.to_dataframes()'}],
+                    'pre': {'linker': obs_model(l), 'subs': [[enc(kk), obs_model(v)] for kk, v in l.submodels.items()]},
                     'tables': [[enc(kk), obs_table(v)] for kk, v in d.items()]}
         return _attempt(run)
     if k == 'symbols':
@@ -507,6 +527,30 @@ def impl(case):
         df = pd.DataFrame(data)
         return {'table': obs_table(df), 'rt': _attempt(lambda: [sym_obs(s) for s in dataframe_to_symbols(df)])}
     raise AssertionError(case)
+
+
+def view_probe(m, df, m2):
+    """Are the exchanged objects copies?  Write into the model's float arrays after the export (the frame must not change) and into
+    the frame's float columns after the import (the rebuilt model must not change)."""
+    import numpy as np
+    out = {}
+    before = obs_table(df)
+    for k in m.names:
+        if k in m.index and m[k].dtype.kind == 'f' and len(m[k]):
+            m[k][...] = 12345.5
+    out['export_is_copy'] = obs_table(df) == before
+    if m2 is not None:
+        before2 = obs_model(m2)
+        for c in df.columns:
+            if df[c].dtype.kind == 'f' and len(df):
+                a = np.asarray(df[c])
+                try:
+                    a.setflags(write=True)
+                    a[...] = -777.25
+                except Exception:                 # noqa: BLE001 — a frame that refuses the write cannot leak it either
+                    pass
+        out['import_is_copy'] = obs_model(m2) == before2
+    return out
 
 
 def sym_obs(s):
@@ -961,6 +1005,11 @@ def compare(case, o, r):
         if 'rt' in o and r['rt'] is not None and r['rt'] != {'unmodelled': True}:
             if canon_model(o['rt']) != r['rt']:
                 return 'from_dataframe: impl %s model %s' % (json.dumps(canon_model(o['rt']))[:600], json.dumps(r['rt'])[:600])
+        v = o.get('views')
+        if isinstance(v, dict) and 'raise' not in v and not all(v.values()):
+            return 'the model works on values (tables and models are copies); observed sharing of memory: %s' % json.dumps(v)
+        if o.get('table_direct', 'same') != 'same':
+            return 'fsic.tools.model_to_dataframe(model) differs from model.to_dataframe(): %s' % json.dumps(o['table_direct'])[:400]
         return None
     if k == 'pd':
         cc = lambda cs: [canon_cell(c) for c in cs]
@@ -1092,10 +1141,14 @@ def oracle_table(pre, table, flags, site, fails):
             bad('index', 'int-label-rounded-through-float64', 'an integer label beyond 2^53 next to float labels is rounded: span %s, index %s' % (labels, got))
         else:
             bad('index', 'label-changed', 'index %s is not the span %s' % (got, labels))
-    want = [k for k in pre['names'] if ii or not k.startswith('_')] + (['status'] if st else []) + (['iterations'] if it else [])
+    # the property fixes: one column per (requested) variable, in model order; status / iterations present iff requested.  It does
+    # not say where the two bookkeeping columns stand, so their position is left free here (K compares the exact layout)
+    want_vars = [k for k in pre['names'] if ii or not k.startswith('_')]
+    want_extra = (['status'] if st else []) + (['iterations'] if it else [])
     cols = [c[0] for c in table['cols']]
-    if cols != want:
-        bad('columns', 'names-or-order', 'columns %s, expected %s' % (cols, want))
+    book = [c for c in cols if c in ('status', 'iterations') and c not in want_vars]
+    if [c for c in cols if not (c in ('status', 'iterations') and c not in want_vars)] != want_vars or sorted(book) != sorted(want_extra):
+        bad('columns', 'names-or-order', 'columns %s, expected the variables %s in this order plus %s' % (cols, want_vars, want_extra))
         return
     series = {k: (d, cs) for k, d, cs in pre['vars']}
     series.setdefault('status', tuple(pre['status']))          # a plain container may own variables of these names
@@ -1104,7 +1157,8 @@ def oracle_table(pre, table, flags, site, fails):
         d, cs = series[name]
         if cells != cs:
             bad('cells', 'value-changed', 'column %s holds %s, the series holds %s' % (name, cells[:6], cs[:6]))
-        elif d in NUMPY_TO_PANDAS and dtype != NUMPY_TO_PANDAS[d]:
+        elif d in ('float', 'int', 'bool') and dtype != NUMPY_TO_PANDAS[d]:
+            # "numeric and boolean dtypes preserved": the dtype pandas gives to text is not constrained (K compares it)
             bad('dtype', 'not-preserved', 'column %s of a %s series has dtype %s' % (name, d, dtype))
 
 
@@ -1128,6 +1182,8 @@ def in_rt_guard(case, o):
     data_cols = [c for c in o['table']['cols'] if c[0] not in ('status', 'iterations')]
     if len(set(names)) != len(names) or 'status' in names or 'iterations' in names:
         return False
+    if set(names) & {'span', 'self', 'dtype', 'default_value', 'strict', 'engine'}:
+        return False                               # passed to __init__ as that parameter (guard of the theorem; refuted witnesses)
     if not all(c[0] in names for c in data_cols):
         return False
     if cl.get('strict') and (case['flags'][0] or case['flags'][1]):
@@ -1181,12 +1237,22 @@ def oracle(case, o):
                 # (reported there, at the index) the new span must at least be the exported index, in order
                 if not same(got, want) and not (not same(exported, want) and same(got, exported)):
                     bad('from_dataframe', 'span', 'not-reproduced', 'span %s became %s' % (want[:8], got[:8]))
-                new = {kk: cs for kk, _, cs in rt['vars']}
+                new = {kk: (dd, cs) for kk, dd, cs in rt['vars']}
+                _, asked, _ = rt_class(case, o)
+                sdt = {kk: d for kk, d, _ in pre['vars']}
                 for name, _, cells in data_cols:
                     if name not in new:
                         bad('from_dataframe', 'variable', 'missing', 'column %s of the export (a NAME of the class) is not a variable of the new model' % name)
-                    elif len(new[name]) != len(cells) or not all(values_equal(a, b) for a, b in zip(new[name], cells)):
-                        bad('from_dataframe', 'values', 'not-reproduced', 'variable %s: %s became %s' % (name, cells[:6], new[name][:6]))
+                        continue
+                    ndt, ncells = new[name]
+                    exact = asked in (sdt[name], 'object')      # same dtype asked for (or object): cell for cell, type included
+                    if len(ncells) != len(cells) or not all((a == b) if exact else values_equal(a, b) for a, b in zip(ncells, cells)):
+                        bad('from_dataframe', 'values', 'not-reproduced', 'variable %s: %s became %s' % (name, cells[:6], ncells[:6]))
+                    elif ndt != asked:
+                        bad('from_dataframe', 'dtype', 'not-the-dtype-asked-for', 'variable %s was rebuilt with dtype %s, dtype=%s was asked for' % (name, ndt, asked))
+        # the statement names the functions of fsic.tools as well as the methods: the direct call must meet the same clauses
+        if isinstance(o.get('table_direct'), dict):
+            oracle_table(pre, o['table_direct'], case['flags'], 'model_to_dataframe', fails)
         return fails
     if k == 'pd':
         return fails                              # library behaviour: no clause of the property; K validates the table
@@ -1201,16 +1267,20 @@ def oracle(case, o):
         tabs = o['tables']
         keys = [kk for kk, _ in tabs]
         want = [case['name']] + [kk for kk, _ in pre['subs']]
-        if len(tabs) != len(want) or not all(a == b for a, b in zip(keys, want)):
+        # one table per submodel and one for the linker, found by key: the order of the returned dict is not constrained
+        if len(tabs) != len(want) or sorted(json.dumps(x) for x in keys) != sorted(json.dumps(x) for x in want):
             if any(kk == case['name'] for kk, _ in pre['subs']):
                 bad('linker_to_dataframes', 'submodel-named-like-linker', 'table-missing',
                     'a submodel keyed like the linker replaces the linker table: keys %s, expected linker + %d submodels' % (keys, len(pre['subs'])))
             else:
                 bad('linker_to_dataframes', 'keys', 'wrong-tables', 'keys %s, expected %s' % (keys, want))
             return fails
-        oracle_table(pre['linker'], tabs[0][1], case['flags'], 'linker_to_dataframes[linker]', fails)
-        for (kk, t), (_, m) in zip(tabs[1:], pre['subs']):
-            oracle_table(m, t, case['flags'], 'linker_to_dataframes[submodel]', fails)
+        by_key = {json.dumps(kk): t for kk, t in tabs}
+        oracle_table(pre['linker'], by_key[json.dumps(case['name'])], case['flags'], 'linker_to_dataframes[linker]', fails)
+        for kk, m in pre['subs']:
+            oracle_table(m, by_key[json.dumps(kk)], case['flags'], 'linker_to_dataframes[submodel]', fails)
+        for f in o.get('direct') or []:
+            fails.append(f)
         return fails
     if k == 'symbols':
         if 'raise' in o['table']:
@@ -1396,6 +1466,10 @@ def span_specs(nmax):
         specs.append({'type': 'objindex', 'labels': [['i', k] for k in ks]})
         if ks:
             specs.append({'type': 'list', 'labels': [['td', k * day] for k in ks]})
+    specs.append({'type': 'dtindex', 'tz': 'UTC', 'labels': [['ts', TS_D0 + k * day] for k in (2, 0, 1)]})
+    specs.append({'type': 'dtindex', 'tz': 'Europe/London', 'labels': [['ts', TS_D0 + k * day] for k in (0, 1)]})
+    specs.append({'type': 'perindex', 'freq': 'M', 'labels': [['per', 3, 360 + k] for k in (1, 0, 2)]})
+    specs.append({'type': 'perindex', 'freq': 'D', 'labels': [['per', 4, 10957 + k] for k in (0, 1, 2)]})
     specs.append({'type': 'objindex', 'labels': [['i', 3], ['s', 'a'], ['tup', 1, 2], ['ff', 5, 1]]})
     specs.append({'type': 'objindex', 'labels': [['s', 'b'], ['s', 'a'], ['s', 'b']]})
     specs.append({'type': 'objindex', 'labels': [['s', 'z'], ['i', 1], ['s', 'a'], ['i', 0]]})
@@ -1409,14 +1483,18 @@ FLOATS = [['fi', 0], ['fi', 1], ['fi', -2], ['ff', 1, 1], ['ff', -7, 3], ['ff', 
 INTS = [['i', 0], ['i', 1], ['i', -1], ['i', 7], ['i', 2 ** 53], ['i', 2 ** 53 + 1], ['i', -2 ** 53 - 1], ['i', 2 ** 63 - 1], ['i', -2 ** 63], ['i', 2 ** 62 + 1]]
 BOOLS = [['b', True], ['b', False]]
 STRS = [['s', 'a'], ['s', ''], ['s', 'bcd'], ['s', 'Zx y'], ['s', 'e\xe9'], ['s', 'abc.'], ['s', 'x1'], ['s', 'G']]
-POOL = {'float': FLOATS, 'int': INTS, 'bool': BOOLS, 'str': STRS}
+OBJS = [['i', 1], ['none'], ['ff', 1, 1], ['i', 2 ** 63], ['b', True], ['fi', 2], ['nan']]        # no text: np.array would turn the list into <U
+POOL = {'float': FLOATS, 'int': INTS, 'bool': BOOLS, 'str': STRS, 'object': OBJS}
 NAME_SETS = [[], ['X'], ['X', 'Y'], ['_X'], ['X', '_Y', 'Z'], ['_', 'X'], ['__a', 'b_', '_c'], ['Y', 'X', '_u', 'W'], ['x_', 'X_1'], ['_X', '_Y']]
 EXTRA_NAMES = ['I', '_J', 'B', 'S', '_', 'Q_']
 
 
 def cells_for(rng, dt, n):
     p = POOL[dt]
-    return [list(rng.choice(p)) for _ in range(n)]
+    cs = [list(rng.choice(p)) for _ in range(n)]
+    if dt == 'object' and n:
+        cs[rng.randrange(n)] = ['none']              # a None keeps np.array(list) an object array of the Python objects themselves
+    return cs
 
 
 def gen_export(rng, spec, full):
@@ -1429,7 +1507,7 @@ def gen_export(rng, spec, full):
     extra = []
     for nm in rng.sample(EXTRA_NAMES, rng.choice([0, 0, 1, 2, 3])):
         if nm not in names:
-            d = rng.choice(['float', 'int', 'bool', 'str'])
+            d = rng.choice(['float', 'int', 'bool', 'str', 'float', 'int', 'bool', 'str', 'object'])
             extra.append([nm, d, cells_for(rng, d, n)])
     status = iters = None
     if rng.random() < 0.5:
@@ -1575,6 +1653,15 @@ def gen(rng, tier):
                 cases.append({'kind': 'export', 'span': two, 'dtype': dt, 'names': list(names), 'vals': vals, 'extra': [], 'status': None, 'iters': None,
                               'flags': [bool(fl & 1), bool(fl & 2), bool(fl & 4)],
                               'cls': {'names': list(names), 'dtype': dt, 'default': None, 'strict': not (fl & 3)} if fl & 4 or rng.random() < 0.5 else None})
+    # variables called like a parameter of __init__: the export is fine, from_dataframe passes the column as that parameter
+    for nm in ('span', 'self', 'dtype', 'default_value', 'cls', 'data', 'names'):
+        for fl in (0, 4, 7):
+            for cd in (None, 'float'):
+                cases.append({'kind': 'export', 'span': base, 'dtype': 'float', 'names': ['X', nm], 'vals': {'X': [['fi', 1], ['fi', 2], ['fi', 3]], nm: [['ff', 1, 1], ['fi', 0], ['nan']]},
+                              'extra': [], 'status': None, 'iters': None, 'flags': [bool(fl & 1), bool(fl & 2), bool(fl & 4)],
+                              'cls': {'names': ['X', nm], 'dtype': cd, 'default': None, 'strict': False}})
+        cases.append({'kind': 'export', 'span': base, 'dtype': 'float', 'names': [nm], 'vals': {}, 'extra': [], 'status': None, 'iters': None,
+                      'flags': [False, False, True], 'cls': {'names': [], 'dtype': None, 'default': None, 'strict': False}})
     # hand-edited names lists (malformed stream): duplicates, status / iterations, unknown names
     for tam in (['X'], ['status'], ['iterations', 'X'], ['nope'], ['_Y', '_Y'], ['status', 'nope']):
         for fl in range(8):
@@ -1700,6 +1787,20 @@ def t2s_cases(rng, count):
         out.append({'kind': 't2s', 'cols': full[:drop] + full[drop + 1:]})
     out.append({'kind': 't2s', 'cols': full + [['extra', 'int64', [['i', 1], ['i', 2]]]]})
     out.append({'kind': 't2s', 'cols': full[::-1]})
+    extra_col = ['extra', 'int64', [['i', 1], ['i', 2]]]
+    bad_cells = {'type': [['int64', [['i', 99], ['i', 3]]], ['int64', [['i', 2], ['i', 99]]], ['str', [['s', 'a'], ['s', 'b']]]],
+                 'lags': [['str', [['s', 'a'], ['s', 'b']]], ['float64', [['pinf'], ['fi', 1]]], ['object', [['i', 2 ** 64], ['i', 1]]], ['float64', [['fi', 1], ['ninf']]]]}
+    for field in ('type', 'lags', 'leads'):
+        for d, cs in bad_cells['lags' if field == 'leads' else field]:
+            broken = [[c[0], d, cs] if c[0] == field else list(c) for c in full]
+            out.append({'kind': 't2s', 'cols': broken + [extra_col]})                    # bad cell + unexpected keyword
+            out.append({'kind': 't2s', 'cols': [extra_col] + broken})
+            for drop in range(6):
+                if full[drop][0] != field:
+                    out.append({'kind': 't2s', 'cols': broken[:drop] + broken[drop + 1:]})  # bad cell + missing column
+                    out.append({'kind': 't2s', 'cols': broken[:drop] + broken[drop + 1:] + [extra_col]})
+    for drop in range(6):
+        out.append({'kind': 't2s', 'cols': full[:drop] + full[drop + 1:] + [extra_col]})
     alt = {
         'type': [['int64', [['i', 0], ['i', 3]]], ['int64', [['i', 10], ['i', 3]]], ['float64', [['fi', 2], ['fi', 9]]], ['float64', [['ff', 5, 1], ['fi', 1]]],
                  ['bool', [['b', True], ['b', True]]], ['str', [['s', 'a'], ['s', 'b']]], ['object', [['none'], ['i', 1]]]],
